@@ -70,6 +70,26 @@ func synthModels(r *rand.Rand) []synthModel {
 				{Op: "Constant", Attrs: []Attr{{"value", "t", rawJ(AbsTensor{Dt: "f32", Shape: []int{1}, Data: []Elem{IntElem(7)}})}}, Ins: []string{}, Outs: []string{"cc"}},
 				{Op: "Mul", Attrs: []Attr{}, Ins: []string{"x", "cc"}, Outs: []string{"yc"}}},
 			Inputs: []mInput{dynInput("x", 6000)}, Outputs: []string{"ya", "yb", "yc"}, Inits: []mInit{{"unused", fTensor(r, []int{2}, 0, 1)}}}},
+		// one shared weight read by an operator of every single-input family at once (whatever an operator does to its operand
+		// while it runs, it does to the weight all Runs share)
+		{"weight_fanout", mModel{
+			Nodes: []mNode{
+				{Op: "ReduceMax", Attrs: []Attr{aIs("axes", []int{0}), aI("keepdims", 0)}, Ins: []string{"fw"}, Outs: []string{"rmax"}},
+				{Op: "ReduceMin", Attrs: []Attr{aIs("axes", []int{-1})}, Ins: []string{"fw"}, Outs: []string{"rmin"}},
+				{Op: "ArgMax", Attrs: []Attr{aI("axis", 1), aI("keepdims", 1)}, Ins: []string{"fw"}, Outs: []string{"am"}},
+				{Op: "Softmax", Attrs: []Attr{aI("axis", 0)}, Ins: []string{"fw"}, Outs: []string{"sm"}},
+				{Op: "Abs", Attrs: []Attr{}, Ins: []string{"fw"}, Outs: []string{"ab"}},
+				{Op: "Cast", Attrs: []Attr{aI("to", 7)}, Ins: []string{"fw"}, Outs: []string{"ci"}},
+				{Op: "Squeeze", Attrs: []Attr{}, Ins: []string{"fw3"}, Outs: []string{"sq"}},
+				{Op: "Unsqueeze", Attrs: []Attr{}, Ins: []string{"fw", "ax1"}, Outs: []string{"us"}},
+				{Op: "Slice", Attrs: []Attr{}, Ins: []string{"fw", "st", "en", "ax1"}, Outs: []string{"sl"}},
+				{Op: "Gather", Attrs: []Attr{aI("axis", 1)}, Ins: []string{"fw", "gi"}, Outs: []string{"ga"}},
+				{Op: "Concat", Attrs: []Attr{aI("axis", 0)}, Ins: []string{"fw", "fw"}, Outs: []string{"cc"}},
+				{Op: "Expand", Attrs: []Attr{}, Ins: []string{"fw3", "esh"}, Outs: []string{"ex"}},
+				{Op: "Mul", Attrs: []Attr{}, Ins: []string{"x", "rmax"}, Outs: []string{"y"}}},
+			Inputs: []mInput{dynInput("x", 24)}, Outputs: []string{"y", "rmin", "am", "sm", "ab", "ci", "sq", "us", "sl", "ga", "cc", "ex"},
+			Inits: []mInit{{"fw", fTensor(r, []int{16, 24}, -3, 3)}, {"fw3", fTensor(r, []int{16, 1, 24}, -3, 3)}, {"ax1", itensor("i64", []int{1})},
+				{"st", itensor("i64", []int{5})}, {"en", itensor("i64", []int{20})}, {"gi", itensor("i64", []int{23, 0, 7})}, {"esh", itensor("i64", []int{16, 2, 24})}}}},
 		// views of weights: a transposed matrix weight, a permuted 3-D weight, a reshaped one - the weight objects are shared by all Runs
 		{"weight_views", mModel{
 			Nodes: []mNode{
@@ -125,7 +145,7 @@ func batchSynthModels(r *rand.Rand) []synthModel {
 	var out []synthModel
 	for _, m := range synthModels(r) {
 		// (rows of thousands of values are too long a JSON line for the trace specification; views of weights have no batch axis)
-		if m.name != "raw_constant_add" && m.name != "two_unnamed_constants" && m.name != "weight_views" {
+		if m.name != "raw_constant_add" && m.name != "two_unnamed_constants" && m.name != "weight_views" && m.name != "weight_fanout" {
 			out = append(out, m)
 		}
 	}
